@@ -183,6 +183,8 @@ where
             xs.prepared = None;
             return false;
         }
+        // inside an aligned / scoped_aligned region: now and then leave it by unwinding
+        if xs.regions.last() == Some(&2) && xs.prepared.is_none() && st.rng.coin(1, 25) { return true; }
         let mut k = st.rng.below(100);
         // an arena that owns no chunk yet: exercise regions around it before the first allocation
         let empty = xs.prepared.is_none() && scope.stats().count() == 0 && !scope.is_claimed();
@@ -196,7 +198,11 @@ where
                 let (fail, op) = st.next_op(false);
                 match op {
                     Op::End => return false,
-                    Op::ScopeExit { panic } => { if xs.regions.last() == Some(&0) && xs.prepared.is_none() { return panic; } }
+                    Op::ScopeExit { panic } => {
+                        // a scope ends here (normally or by unwinding); an aligned / scoped_aligned region can be left early
+                        // by unwinding too (C18: "and unwinding out of any region")
+                        if (xs.regions.last() == Some(&0) || (xs.regions.last() == Some(&2) && panic)) && xs.prepared.is_none() { return panic; }
+                    }
                     Op::ScopeEnter => { if xs.depth_total < 6 { scope_x(st, xs, scope); } }
                     Op::Reset | Op::ResetToStart => {}
                     Op::TryErr { mutable, ty } => try_err(st, scope, fail, mutable, ty),
